@@ -7223,6 +7223,10 @@ impl<T: Introspect, const N: usize> Introspect for [T; N] {
             Some(introspect_item(index.to_string(), &self[index]))
         }
     }
+
+    fn introspect_len(&self) -> usize {
+        N
+    }
 }
 
 impl<T: Packed, const N: usize> Packed for [T; N] {
